@@ -192,7 +192,17 @@ type DFS struct {
 	// beyond them (so that a later violation of the checked property is still
 	// reachable).
 	Props []string
-	stop  bool
+	// Slice (>0): after this much time the search hands the unexplored rest
+	// of its subtree back (Exported: one path per untried alternative of
+	// every frame of the stack) instead of finishing it, so that idle workers
+	// can share it. Nothing is lost: every exported path is executed later.
+	Slice    time.Duration
+	Exported [][]sim.Event
+	// NewTail: the last event of the prefix has not been executed by anybody
+	// yet (an exported alternative): it is a transition of this run, and a
+	// violation it causes is reported here.
+	NewTail bool
+	stop    bool
 }
 
 func (d *DFS) count(e sim.Event) {
@@ -233,12 +243,22 @@ func (d *DFS) Run(prefix []sim.Event) {
 		}
 		return true
 	}
+	started := time.Now()
+	var tail *sim.Event
+	if d.NewTail && len(prefix) > 0 {
+		tail = &prefix[len(prefix)-1]
+		prefix = prefix[:len(prefix)-1]
+	}
 	if !boot() {
 		x.Close()
 		return
 	}
 	d.Stats.Replayed -= uint64(len(prefix)) // the prefix is new work the first time
 	fresh := true                           // x is positioned at a state not yet examined
+	if tail != nil {
+		stack = append(stack, &frame{events: []sim.Event{*tail}, idx: 0})
+		fresh = d.step(x, path())
+	}
 	for !d.stop {
 		if fresh {
 			depth := len(prefix) + len(stack)
@@ -316,6 +336,16 @@ func (d *DFS) Run(prefix []sim.Event) {
 		}
 		if !d.Deadline.IsZero() && time.Now().After(d.Deadline) {
 			d.Stats.DeadlineHit = true
+			return
+		}
+		if d.Slice > 0 && time.Since(started) > d.Slice {
+			base := append([]sim.Event(nil), prefix...)
+			for _, f := range stack {
+				for j := f.idx + 1; j < len(f.events); j++ {
+					d.Exported = append(d.Exported, append(append([]sim.Event(nil), base...), f.events[j]))
+				}
+				base = append(base, f.events[f.idx])
+			}
 			return
 		}
 		stack[len(stack)-1].idx++
